@@ -108,6 +108,11 @@ pub struct FCase {
     /// (all ones, 1, 7, 2^63, a kernel address): it is a live, attachable thread like any other
     #[serde(default)]
     pub odd_sp: Option<u8>,
+    /// one more parked thread whose stack lies in a file mapped as [rw 2 pages][PROT_NONE page][rw page]
+    /// (three lines of the same file, merged into one module by the writer): the readable run above the
+    /// stack pointer ends at the PROT_NONE page.  (in-page selector, sp in the second page?)
+    #[serde(default)]
+    pub file_stack: Option<(u8, bool)>,
 }
 
 pub const ODD_SPS: [u64; 6] = [u64::MAX, 1, 7, 1 << 63, 0xffff_8000_0000_0000, u64::MAX - 7];
@@ -188,6 +193,20 @@ pub fn run_case(c: &FCase) -> Result<Obs, RunErr> {
         }
         stacks.push(st);
         ids.push((id, t.kind, sp));
+    }
+    if let Some((sel, second)) = c.file_stack {
+        use std::os::unix::ffi::OsStrExt;
+        let path = scratch.join("stackfile.bin").as_os_str().as_bytes().to_vec();
+        let content: Vec<u8> = (0..4 * PAGE).map(|o| crate::vcore::target::pat(o, 0xF57A)).collect();
+        b.spec.files.push((path.clone(), content));
+        let addr = b.next_map_addr();
+        let m0 = b.add_file_map_at(addr, 2, 3, &path, 0, false);
+        b.add_file_map_at(addr + 2 * PAGE, 1, 0, &path, 2, false);
+        b.add_file_map_at(addr + 3 * PAGE, 1, 3, &path, 3, false);
+        let sp = addr + (second as u64) * PAGE + (sel as u64 * 16) % PAGE;
+        let id = b.add_thread(K_PARKED, Some(b"fstack".to_vec()), sp, 0xF57A);
+        stacks.push(StackInfo { map_id: m0, base: addr, end: addr + 2 * PAGE, guard: None });
+        ids.push((id, K_PARKED, sp));
     }
     if let Some(sel) = c.odd_sp {
         let st = b.add_stack(1, false, 0x0dd);
@@ -438,7 +457,7 @@ pub fn case_strategy(max_threads: usize, min_threads: usize) -> impl Strategy<Va
                     }
                 }
             }
-            FCase { threads, blamed, crash, limit, app_maps, app, ip_map_pages, stop_failspot, cue_exiters, ip_neighbors, second_dump, odd_sp: None }
+            FCase { threads, blamed, crash, limit, app_maps, app, ip_map_pages, stop_failspot, cue_exiters, ip_neighbors, second_dump, odd_sp: None, file_stack: None }
         })
 }
 
